@@ -579,7 +579,13 @@ func handleInputStream(s *Session, handler Handler) (err error) {
 	}
 
 	// If this is a stanza, normalize the "from" attribute.
-	if stanza.Is(start.Name, s.in.XMLNS) {
+	// The framing element of a WebSocket connection does not declare the content
+	// namespace, stanzas declare it themselves (RFC 7395 §3.3).
+	stanzaNS := s.in.XMLNS
+	if s.ws {
+		stanzaNS = stanza.NSClient
+	}
+	if stanza.Is(start.Name, stanzaNS) {
 		for i, attr := range start.Attr {
 			if attr.Name.Local == "from" /*&& attr.Name.Space == start.Name.Space*/ {
 				local := s.LocalAddr().Bare().String()
